@@ -213,24 +213,23 @@ theorem ext_asRO0 (s : State) (i : Nat) : Ext s (asRO0 s i) := by
     · exact ((ext_freezeV _ _).trans (ext_freezeM _ _)).trans (ext_setObj _ _ _)
   · exact Ext.refl _
 
-theorem ext_asROd (s : State) (i : Nat) : Ext s (asROd s i) := by
-  unfold asROd
-  split
-  · split
+theorem ext_asROf (fuel : Nat) : ∀ (s : State) (i : Nat), Ext s (asROf fuel s i) := by
+  induction fuel with
+  | zero => intro s i; exact Ext.refl _
+  | succ n ih =>
+    intro s i
+    unfold asROf
+    split
+    · split
+      · exact Ext.refl _
+      · dsimp only
+        refine Ext.trans ?_ (ext_foldl _ (fun s (kd : Nat × Nat) => ih s kd.2) _ _)
+        split
+        · exact (ext_asRO0 _ _).trans (ih _ _)
+        · exact ext_asRO0 _ _
     · exact Ext.refl _
-    · simp only
-      split
-      · exact (ext_asRO0 _ _).trans (ext_asRO0 _ _)
-      · exact ext_asRO0 _ _
-  · exact Ext.refl _
 
-theorem ext_asRO (s : State) (i : Nat) (r : Bool) : Ext s (asRO s i r) := by
-  unfold asRO
-  split
-  · split
-    · exact Ext.refl _
-    · exact (ext_asROd _ _).trans (ext_foldl _ (fun s (x : Nat × Nat) => ext_asROd s x.2) _ _)
-  · exact Ext.refl _
+theorem ext_asRO (s : State) (i : Nat) (r : Bool) : Ext s (asRO s i r) := ext_asROf _ _ _
 
 theorem ext_cloneNR (s : State) (i : Nat) : Ext s (cloneNR s i).2 := by
   unfold cloneNR
@@ -322,16 +321,17 @@ theorem ext_derive1 (s : State) (i : Nat) (m : Mode) (sel : Sel) : Ext s (derive
       (ext_finishDerived _ _ _ _ _)
   · exact Ext.refl _
 
-theorem ext_deriveStep (c : Nat) (m : Mode) (sel : Sel) (s : State) (kd : Nat × Nat) :
-    Ext s (deriveStep c m sel s kd) :=
+theorem ext_deriveStep (c : Nat) (m : Mode) (sel : Sel) (dsel : List (Nat × Sel)) (s : State) (kd : Nat × Nat) :
+    Ext s (deriveStep c m sel dsel s kd) :=
   (ext_derive1 _ _ _ _).trans (ext_insertDeriv _ _ _ _ _)
 
-theorem ext_derive (s : State) (i : Nat) (m : Mode) (sel : Sel) (r : Bool) : Ext s (derive s i m sel r).2 := by
+theorem ext_derive (s : State) (i : Nat) (m : Mode) (sel : Sel) (r : Bool) (dsel : List (Nat × Sel)) :
+    Ext s (derive s i m sel r dsel).2 := by
   unfold derive
   split
   · dsimp only
     split
-    · exact (ext_derive1 _ _ _ _).trans (ext_foldl _ (ext_deriveStep _ _ _) _ _)
+    · exact (ext_derive1 _ _ _ _).trans (ext_foldl _ (ext_deriveStep _ _ _ _) _ _)
     · exact ext_derive1 _ _ _ _
   · exact Ext.refl _
 
@@ -404,6 +404,10 @@ theorem ext_decode (s : State) (o : Obj) (mc : MaskClass) : Ext s (decode s o mc
       split
       · exact (ext_copyOf _ _ _).trans (ext_copyOf _ _ _)
       · exact ext_copyOf _ _ _
+    · dsimp only
+      split
+      · exact (ext_freshArr _ _ _).trans (ext_copyOf _ _ _)
+      · exact ext_freshArr _ _ _
 
 theorem ext_unpickleNR (s : State) (o : Obj) (mc : MaskClass) (pm : Option Msk) (top : Bool) :
     Ext s (unpickleNR s o mc pm top).2 := by
@@ -432,7 +436,7 @@ theorem ext_unpickle (s : State) (i : Nat) (mc : MaskClass) (dmc : List (Nat × 
   · exact (ext_unpickleNR _ _ _ _ _).trans (ext_foldl _ (ext_unpickleStep _ _ _) _ _)
   · exact Ext.refl _
 
-theorem ext_expandMask (s : State) (m : Msk) (mpos : List Nat) : Ext s (expandMask s m mpos).2 := by
+theorem ext_expandMask (s : State) (m : Msk) (mn : Nat) : Ext s (expandMask s m mn).2 := by
   unfold expandMask
   split
   · exact ext_freshArr _ _ _
@@ -444,44 +448,69 @@ theorem ext_writeMask (s : State) (m : Msk) (mpos : List Nat) : Ext s (writeMask
   · exact (ext_copyOf _ _ _).trans (ext_writeArr _ _ _)
   · exact Ext.refl _
 
-theorem ext_setItem (fuel : Nat) : ∀ (s : State) (i : Nat) (pos mpos : List Nat),
-    Ext s (setItem s i pos mpos fuel).1 := by
+theorem ext_setItem (fuel : Nat) : ∀ (s : State) (i : Nat) (pos mpos : List Nat) (mn : Nat),
+    Ext s (setItem s i pos mpos mn fuel).1 := by
   induction fuel with
-  | zero => intro s i pos mpos; exact Ext.refl _
+  | zero => intro s i pos mpos mn; exact Ext.refl _
   | succ n ih =>
-    intro s i pos mpos
+    intro s i pos mpos mn
     unfold setItem
     split
     · exact Ext.refl _
     · split
       · split
         · exact Ext.refl _
-        · dsimp only
-          split
-          · exact ((ext_expandMask _ _ _).trans (ext_setObj _ _ _)).trans (ext_writeArr _ _ _)
-          · refine Ext.trans ?_ (ext_foldl_pair _ (fun acc (kd : Nat × Nat) => ?_) _ (_, Res.ok))
-            · exact ((((ext_expandMask _ _ _).trans (ext_setObj _ _ _)).trans (ext_writeArr _ _ _)).trans
-                (ext_writeMask _ _ _)).trans (ext_setObj _ _ _)
-            · split
-              · exact Ext.refl _
-              · exact ih _ _ _ _
+        · split
+          · exact Ext.refl _
+          · dsimp only
+            split
+            · exact ((ext_expandMask _ _ _).trans (ext_setObj _ _ _)).trans (ext_writeArr _ _ _)
+            · refine Ext.trans ?_ (ext_foldl_pair _ (fun acc (kd : Nat × Nat) => ?_) _ (_, Res.ok))
+              · exact ((((ext_expandMask _ _ _).trans (ext_setObj _ _ _)).trans (ext_writeArr _ _ _)).trans
+                  (ext_writeMask _ _ _)).trans (ext_setObj _ _ _)
+              · split
+                · exact Ext.refl _
+                · exact ih _ _ _ _ _
       · exact Ext.refl _
 
-theorem ext_iop (s : State) (i : Nat) (fast : Bool) : Ext s (iop s i fast).1 := by
-  unfold iop
+theorem ext_zeroDeriv (s : State) (n d : Nat) : Ext s (zeroDeriv s n d).2 := by
+  unfold zeroDeriv
+  split
+  · exact (ext_freshArr _ _ _).trans (ext_allocObj _ _)
+  · exact Ext.refl _
+
+theorem ext_setAllStep (i n : Nat) (s : State) (kd : Nat × Nat) : Ext s (setAllStep i n s kd) :=
+  (ext_zeroDeriv _ _ _).trans (ext_setObj _ _ _)
+
+theorem ext_setAll (s : State) (i : Nat) : Ext s (setAll s i).1 := by
+  unfold setAll
   split
   · exact Ext.refl _
   · split
     · split
-      · exact (ext_stamps _ _).trans (ext_setObj _ _ _)
-      · dsimp only
-        split
-        · exact ext_writeArr _ _ _
-        · split
-          · exact ext_writeArr _ _ _
-          · exact ((ext_writeArr _ _ _).trans
-              (ext_foldl _ (fun s (kd : Nat × Nat) => ext_insertDeriv s _ _ _ _) _ _)).trans (ext_setObj _ _ _)
+      · exact Ext.refl _
+      · split
+        · exact Ext.refl _
+        · exact ((ext_freshArr _ _ _).trans (ext_setObj _ _ _)).trans (ext_foldl _ (ext_setAllStep _ _) _ _)
     · exact Ext.refl _
+
+theorem ext_iop (s : State) (i : Nat) (fast un : Bool) : Ext s (iop s i fast un).1 := by
+  unfold iop
+  split
+  · exact Ext.refl _
+  · split
+    · exact Ext.refl _
+    · split
+      · split
+        · exact (ext_stamps _ _).trans (ext_setObj _ _ _)
+        · dsimp only
+          split
+          · exact ext_writeArr _ _ _
+          · split
+            · exact (ext_writeArr _ _ _).trans (ext_setObj _ _ _)
+            · exact ((ext_writeArr _ _ _).trans
+                (ext_foldl _ (fun s (kd : Nat × Nat) => ext_insertDeriv s _ _ _ _) _ _)).trans (ext_setObj _ _ _)
+      · exact Ext.refl _
 
 theorem ext_setUnits (s : State) (i u : Nat) (ov : Bool) : Ext s (setUnits s i u ov).1 := by
   unfold setUnits
@@ -536,7 +565,7 @@ theorem ext_step (s : State) (op : Op) : Ext s (step s op).1 := by
   cases op <;> simp only [step, objRes]
   case mk => exact ext_mkObj _ _ _ _ _ _
   case mks => exact ext_mkScalar _ _ _ _
-  case derive => split <;> first | exact ext_derive _ _ _ _ _ | exact Ext.refl _
+  case derive => split <;> first | exact ext_derive _ _ _ _ _ _ | exact Ext.refl _
   case wod => split <;> first | exact ext_wodOf _ _ | exact Ext.refl _
   case clone => split <;> first | exact ext_clone _ _ _ | exact Ext.refl _
   case copy => split <;> first | exact ext_copy _ _ _ _ | exact Ext.refl _
@@ -548,8 +577,9 @@ theorem ext_step (s : State) (op : Op) : Ext s (step s op).1 := by
     split
     · exact (ext_viewOf _ _ _ _).trans (Ext.of_same rfl rfl)
     · exact Ext.refl _
-  case setItem => exact ext_setItem _ _ _ _ _
-  case iop => exact ext_iop _ _ _
+  case setItem => exact ext_setItem _ _ _ _ _ _
+  case setAll => exact ext_setAll _ _
+  case iop => exact ext_iop _ _ _ _
   case setUnits => exact ext_setUnits _ _ _ _
   case deleteDeriv => exact ext_deleteDeriv _ _ _ _
   case deleteDerivs => exact ext_deleteDerivs _ _ _
